@@ -247,7 +247,10 @@ def r4_1(ctx, R, otypes):
                         for bb2 in range(b.n):
                             for s in b.stmts(bb2):
                                 if s["k"] == "assign" and s["rv"]["k"] == "aggregate" and s["rv"].get("agg") == "closure":
-                                    caps = [strip_refs(fl.operand_expr(op)) for op in s["rv"]["ops"]]
+                                    # the closure must borrow the counter mutably: a by-value (`move`) capture numbers a
+                                    # private copy and leaves the stored counter at its initial value
+                                    raw = [fl.operand_expr(op) for op in s["rv"]["ops"]]
+                                    caps = [strip_refs(x) for x in raw if x[0] == "ref"]
                                     if strip_refs(v) in caps or v in caps or any(c == v for c in caps):
                                         inc_ok = True
                                     if v[0] == "multi" and any(c == v for c in caps):
